@@ -58,7 +58,7 @@ var slots = map[string]bdef{
 var (
 	slotNames   = []string{"B1", "B2", "B3", "B4", "B5"}
 	adminCaller = []string{"header-admin", "oauth-admin", "user-nonadmin", "oauth-nonadmin", "anonymous", "agent1"}
-	agentCaller = []string{"agent1", "agent2", "agent3", "stranger", "none", "oauth-admin", "user-u1"}
+	agentCaller = []string{"agent1", "agent2", "agent3", "stranger", "none", "oauth-admin", "user-u1", "oauth-noemail"}
 	userCaller  = []string{"u1", "u2", "anonymous", "u3"}
 )
 
@@ -76,6 +76,8 @@ func identity(name string) aerig.Identity {
 		return aerig.Identity{OAuthEmail: name + "@example.com"}
 	case "stranger":
 		return aerig.Identity{OAuthEmail: "stranger@example.com"}
+	case "oauth-noemail":
+		return aerig.Identity{OAuthNoEmail: true} // a valid token without an e-mail address
 	case "user-u1":
 		return aerig.Identity{Email: "u1@example.com"} // signed in, but no OAuth identity
 	case "u1", "u2", "u3":
